@@ -26,11 +26,15 @@ pub struct PPCfg {
     pub cost_models: [bool; 3],
     pub slot: u64,
     pub time: u128,
+    /// protocol parameters differ from network to network and from epoch to epoch: the cost
+    /// models of this world are the base ones shifted by this
+    pub cm_salt: i64,
 }
 
 impl PPCfg {
     pub fn plain() -> Self {
         PPCfg {
+            cm_salt: 0,
             mainnet: false,
             coef: 44,
             constant: 155_381,
@@ -46,27 +50,28 @@ impl PPCfg {
     }
     pub fn describe(&self) -> String {
         format!(
-            "net={} a={} b={} cpb={} extra={:?} cost_models={:?} slot={}",
+            "net={} a={} b={} cpb={} extra={:?} cost_models={:?}+{} slot={}",
             if self.mainnet { "main" } else { "test" },
             self.coef,
             self.constant,
             self.cpb,
             self.extra,
             self.cost_models,
+            self.cm_salt,
             self.slot
         )
     }
 }
 
-pub fn cost_model(v: u8) -> Vec<i64> {
-    (0..(10 + v as i64)).map(|i| 1000 * (v as i64 + 1) + i * 7 - 3).collect()
+pub fn cost_model(v: u8, salt: i64) -> Vec<i64> {
+    (0..(10 + v as i64)).map(|i| 1000 * (v as i64 + 1) + i * 7 - 3 + salt).collect()
 }
 
 pub fn make_compiler(pp: &PPCfg) -> RealCompiler {
     let mut cost_models = std::collections::HashMap::new();
     for v in 0..3u8 {
         if pp.cost_models[v as usize] {
-            cost_models.insert(v, cost_model(v));
+            cost_models.insert(v, cost_model(v, pp.cm_salt));
         }
     }
     let network = if pp.mainnet {
@@ -93,6 +98,9 @@ pub fn make_compiler(pp: &PPCfg) -> RealCompiler {
 
 pub fn draw_pparams(t: &mut crate::tape::Tape, wide: bool) -> PPCfg {
     let mut pp = PPCfg::plain();
+    if t.chance(1, 3) {
+        pp.cm_salt = t.draw(5) as i64 * 11;
+    }
     if wide {
         pp.coef = *t.pick(&[44u64, 0, 1, 100, 1000, 999, 500]);
         pp.constant = *t.pick(&[155_381u64, 0, 2, 1_000_000, 65_000]);
@@ -791,7 +799,7 @@ pub fn check_wellformed(
         (true, Some(hh)) => {
             let mut ok = false;
             for v in 0..3u8 {
-                if pp.cost_models[v as usize] && &crate::txread::script_data_hash(d, v, &cost_model(v)) == hh {
+                if pp.cost_models[v as usize] && &crate::txread::script_data_hash(d, v, &cost_model(v, pp.cm_salt)) == hh {
                     ok = true;
                 }
             }
